@@ -1124,3 +1124,135 @@ Proof.
     rewrite (interp_outside_none xp m (nth a0 xs 0) nearest ny Hax Hnx Hout). apply nth_repeat.
   - apply nth_In. unfold r, interp_axis. rewrite map_length. exact Ha0.
 Qed.
+
+(* ------------------------------------------------------------------ *)
+(* descending grids, nearest mode                                       *)
+(* ------------------------------------------------------------------ *)
+
+Lemma axis_corners_node_nearest : forall xp rows k, sasc xp -> (k < length xp)%nat ->
+  exists r1, axis_corners xp rows (rnth xp k) None true
+             = [mkc (Some (1 - 0)) (nth k rows []); mkc (Some 0) r1].
+Proof.
+  intros xp rows k Hs Hk. pose proof (sasc_asc _ Hs) as Ha.
+  destruct (Nat.eq_dec (k + 1) (length xp)) as [Hlast|Hnl].
+  - assert (Hx : rnth xp k = last0 xp) by (rewrite last0_rnth; f_equal; lia).
+    exists (nth k rows []). unfold axis_corners, frac_n.
+    rewrite (enclosing_last xp _ Ha ltac:(lia) Hx). cbn [fst snd].
+    rewrite (frac_last xp _ _ false false Ha Hx). cbn [option_map]. rewrite rint_0.
+    replace (length xp - 1)%nat with k by lia. reflexivity.
+  - assert (Hi : (k + 1 < length xp)%nat) by lia.
+    assert (Hx : rnth xp k <= rnth xp k < rnth xp (k + 1)) by (split; [lra|apply Hs; lia]).
+    exists (nth (k + 1) rows []). rewrite (axis_corners_between_nearest xp rows _ k Ha Hi Hx).
+    unfold tfrac. replace (rnth xp k - rnth xp k) with 0 by ring.
+    replace (0 / (rnth xp (k + 1) - rnth xp k)) with 0 by (unfold Rdiv; ring).
+    rewrite rint_0. reflexivity.
+Qed.
+
+Lemma node_corners_eq : forall r0 r1 r2 np,
+  interp_corners [mkc (Some (1 - 0)) r0; mkc (Some 0) r1] np
+  = interp_corners [mkc (Some (1 - 0)) r0; mkc (Some 0) r2] np.
+Proof.
+  intros. unfold interp_corners. rewrite !wsum2, !cmask_some.
+  destruct (Rgt_dec 0 0); [lra|].
+  apply map_ext. intros j. rewrite !vsum2, !cmask_some.
+  destruct (Rgt_dec 0 0); [lra|]. reflexivity.
+Qed.
+
+Lemma nearest_swap : forall a b np,
+  interp_corners [mkc (Some (1 - 0)) a; mkc (Some 0) b] np
+  = interp_corners [mkc (Some (1 - 1)) b; mkc (Some 1) a] np.
+Proof.
+  intros. rewrite (interp_corners_swap (mkc (Some (1 - 1)) b)).
+  replace (1 - 1) with 0 by ring. replace (1 - 0) with 1 by ring. reflexivity.
+Qed.
+
+(* nearest mode on a strictly descending grid = nearest mode on the reversed grid, except at
+   exact mid points (where np.rint's tie goes to the first node in storage order) *)
+Lemma interp_descending_nearest : forall xp rows x np, sdesc xp -> (2 <= length xp)%nat ->
+  length rows = length xp ->
+  (forall i, (i + 1 < length xp)%nat -> x <> (rnth xp i + rnth xp (i + 1)) / 2) ->
+  interp_axis1 xp rows x None true np = interp_axis1 (rev xp) (rev rows) x None true np.
+Proof.
+  intros xp rows x np Hd Hn Hlen Hmid.
+  rewrite (interp_descending_frame xp rows x true np Hd Hn).
+  set (c := hd0 xp). set (xp' := map (fun v => c - v) xp).
+  pose proof (sdesc_flip_sasc xp Hd) as Hs'. fold c xp' in Hs'.
+  pose proof (sdesc_rev_sasc xp Hd) as Hsr.
+  pose proof (sasc_asc _ Hs') as Ha'. pose proof (sasc_asc _ Hsr) as Har.
+  assert (Ln' : length xp' = length xp) by (unfold xp'; apply map_length).
+  assert (Lnr : length (rev xp) = length xp) by apply rev_length.
+  set (n := length xp) in *.
+  assert (Hhd' : hd0 xp' = 0).
+  { rewrite hd0_rnth. unfold xp'. rewrite rnth_map_sub by lia. unfold c. rewrite hd0_rnth. ring. }
+  assert (Hlast' : last0 xp' = c - rnth xp (n - 1)).
+  { rewrite last0_rnth, Ln'. unfold xp'. rewrite rnth_map_sub by lia. reflexivity. }
+  assert (Hhdr : hd0 (rev xp) = rnth xp (n - 1)).
+  { rewrite hd0_rnth, rnth_rev by lia. f_equal. lia. }
+  assert (Hlastr : last0 (rev xp) = c).
+  { rewrite last0_rnth, Lnr, rnth_rev by lia. unfold c. rewrite hd0_rnth. f_equal. lia. }
+  destruct (Rlt_dec x (rnth xp (n - 1))) as [Hlow|Hlow].
+  { rewrite (interp_outside_none xp' rows (c - x) true np Ha') by (try lia; right; lra).
+    rewrite (interp_outside_none (rev xp) (rev rows) x true np Har) by (try lia; left; lra).
+    reflexivity. }
+  destruct (Rlt_dec c x) as [Hhigh|Hhigh].
+  { rewrite (interp_outside_none xp' rows (c - x) true np Ha') by (try lia; left; lra).
+    rewrite (interp_outside_none (rev xp) (rev rows) x true np Har) by (try lia; right; lra).
+    reflexivity. }
+  destruct (Req_dec x c) as [Htop|Htop].
+  { assert (E1 : c - x = rnth xp' 0) by (rewrite <- hd0_rnth, Hhd'; lra).
+    assert (E2 : x = rnth (rev xp) (n - 1)) by (rewrite <- Lnr at 1; rewrite <- last0_rnth, Hlastr; exact Htop).
+    rewrite E1. rewrite E2. unfold interp_axis1.
+    destruct (axis_corners_node_nearest xp' rows 0 Hs' ltac:(lia)) as [r1 F1].
+    destruct (axis_corners_node_nearest (rev xp) (rev rows) (n - 1) Hsr ltac:(lia)) as [r2 F2].
+    rewrite F1, F2. rewrite nth_rev_rows by lia.
+    replace (length rows - 1 - (n - 1))%nat with 0%nat by lia. apply node_corners_eq. }
+  destruct (bracket_exists (rev xp) x Hsr ltac:(lia) ltac:(rewrite Hhdr, Hlastr; lra)) as [k [Hk Hx]].
+  rewrite Lnr in Hk. rewrite !rnth_rev in Hx by lia. fold n in Hx.
+  set (i := (n - 2 - k)%nat).
+  assert (Ei1 : (n - 1 - k)%nat = (i + 1)%nat) by (unfold i; lia).
+  assert (Ei0 : (n - 1 - (k + 1))%nat = i) by (unfold i; lia).
+  rewrite Ei1, Ei0 in Hx.
+  assert (Hi : (i + 1 < n)%nat) by (unfold i; lia).
+  destruct (Req_dec x (rnth xp (i + 1))) as [Hnode|Hnn].
+  { assert (E1 : c - x = rnth xp' (i + 1)) by (unfold xp'; rewrite rnth_map_sub by lia; lra).
+    assert (E2 : x = rnth (rev xp) k) by (rewrite rnth_rev by lia; fold n; rewrite Ei1; exact Hnode).
+    rewrite E1. rewrite E2. unfold interp_axis1.
+    destruct (axis_corners_node_nearest xp' rows (i + 1) Hs' ltac:(lia)) as [r1 F1].
+    destruct (axis_corners_node_nearest (rev xp) (rev rows) k Hsr ltac:(lia)) as [r2 F2].
+    rewrite F1, F2. rewrite nth_rev_rows by lia. rewrite Hlen. fold n. rewrite Ei1. apply node_corners_eq. }
+  assert (Hx' : rnth xp' i <= c - x < rnth xp' (i + 1)).
+  { unfold xp'. rewrite !rnth_map_sub by lia. lra. }
+  assert (Hxr : rnth (rev xp) k <= x < rnth (rev xp) (k + 1)).
+  { rewrite !rnth_rev by lia. fold n. rewrite Ei1, Ei0. lra. }
+  unfold interp_axis1.
+  rewrite (axis_corners_between_nearest xp' rows (c - x) i Ha' ltac:(lia) Hx').
+  rewrite (axis_corners_between_nearest (rev xp) (rev rows) x k Har ltac:(lia) Hxr).
+  rewrite !nth_rev_rows by lia. rewrite Hlen. fold n. rewrite Ei1, Ei0.
+  assert (Et : tfrac (rev xp) x k = 1 - tfrac xp' (c - x) i).
+  { unfold tfrac. rewrite !rnth_rev by lia. fold n. rewrite Ei1, Ei0.
+    unfold xp'. rewrite !rnth_map_sub by lia. field. lra. }
+  pose proof (tfrac_bounds xp' (c - x) i Hx') as Hb.
+  set (t' := tfrac xp' (c - x) i) in *.
+  assert (Hne : t' <> 1 / 2).
+  { intros Hh. apply (Hmid i Hi). unfold t', tfrac, xp' in Hh. rewrite !rnth_map_sub in Hh by lia.
+    assert (Hden : rnth xp i - rnth xp (i + 1) <> 0) by lra.
+    assert (Hh2 : (c - x - (c - rnth xp i)) = (1 / 2) * (c - rnth xp (i + 1) - (c - rnth xp i))).
+    { apply (Rmult_eq_reg_r (/ (c - rnth xp (i + 1) - (c - rnth xp i)))).
+      - unfold Rdiv in Hh. rewrite Hh. field. lra.
+      - apply Rinv_neq_0_compat. lra. }
+    lra. }
+  rewrite Et.
+  destruct (Rlt_dec t' (1 / 2)) as [Hlt|Hge].
+  - rewrite (rint_lo t') by lra. rewrite (rint_hi (1 - t')).
+    + apply nearest_swap.
+    + destruct (Req_dec t' 0) as [Hz|Hz]; [|lra].
+      (* t' = 0 would make x a node, excluded above *)
+      exfalso. apply Hnn. unfold t', tfrac, xp' in Hz. rewrite !rnth_map_sub in Hz by lia.
+      assert (c - x - (c - rnth xp i) = 0).
+      { apply (Rmult_eq_reg_r (/ (c - rnth xp (i + 1) - (c - rnth xp i)))).
+        - unfold Rdiv in Hz. rewrite Hz. ring.
+        - apply Rinv_neq_0_compat. lra. }
+      lra.
+  - rewrite (rint_hi t') by lra. rewrite (rint_lo (1 - t')) by lra.
+    symmetry. apply nearest_swap.
+Qed.
